@@ -19,6 +19,19 @@ EXPLANATION = (
     "are shared read-only (C02's R-INPUT)."
 )
 
+REF_ADD_COLUMN = '''
+def add_column(self, market, name, column_data):
+    if not isinstance(column_data.index, pd.core.indexes.datetimes.DatetimeIndex):
+        raise DemeterError("index")
+    if isinstance(market, MarketInfo):
+        target = self.broker.markets[market]
+    elif isinstance(market, Market):
+        target = market
+    else:
+        raise DemeterError("market")
+    target.data[name] = column_data
+'''
+
 REF_ADD_MARKET = '''
 def add_market(self, market):
     if market.market_info in self._markets:
@@ -322,6 +335,10 @@ def run(model, tier="quick"):
     res.floor("launchers_reached_from_run", share_rule(model, res), 2)
     res.floor("launcher_functions", launcher_rule(model, res), 2)
     res.floor("await_sites", wait_rule(model, res), 1)
+    # the market frames are shared by the strategies of one process; a column a strategy attaches must therefore be
+    # (re)written with THAT strategy's data on every call - never kept from whoever wrote it before
+    effects_check(res, model, "Strategy.add_column", REF_ADD_COLUMN,
+                  "add_column stores the caller's series under the name unconditionally (after the index check)", [], keep_raise_effects=True)
     effects_check(res, model, "Broker.add_market", REF_ADD_MARKET,
                   "add_market rebinds the market's broker and action callback unconditionally", [], keep_raise_effects=True)
     # the data frames ARE shared between the strategies of one process (by design, read-only): objects inside their cells
